@@ -377,4 +377,217 @@ theorem neg_produces_of_term {t : σ × NSt α} {outs : List (α × Nat)} {cf : 
 
 end neg
 
+/-! ## the branches -/
+
+/-- the arguments `Slice.__init__` routes to `_run_negative_islice`: a negative `start` or `stop`
+(the same as `Lena.C17.HasNeg`) -/
+def NegArgs (start stop : Option Int) : Prop :=
+  (∃ i, start = some i ∧ i < 0) ∨ (∃ i, stop = some i ∧ i < 0)
+
+theorem lagOut_take_drop (m : Nat) (xs : List (α × Nat)) :
+    lagOut (((xs.take m).map Prod.fst).reverse ++ []) (xs.drop m) = lagSpec m xs := by
+  simp only [lagOut, lagSpec, List.append_nil, List.reverse_reverse, ← List.map_append, List.take_append_drop]
+
+theorem need_ge_length (c0 cf : Nat) (xs : List (α × Nat)) (m : Nat) (h : xs.length < m) :
+    (SF.mk c0 xs cf).need m = cf := by
+  obtain ⟨k, rfl⟩ : ∃ k, m = k + 1 := ⟨m - 1, by omega⟩
+  exact need_of_ge _ _ (by simp; omega)
+
+/-- skipping `a` values and then asking for `m` more is asking for `a + m` -/
+theorem need_drop (c0 cf : Nat) (xs : List (α × Nat)) (a m : Nat) :
+    (SF.mk ((SF.mk c0 xs cf).need a) (xs.drop a) cf).need m = (SF.mk c0 xs cf).need (a + m) := by
+  induction a generalizing c0 xs with
+  | zero => simp
+  | succ a ih =>
+    cases xs with
+    | nil =>
+      cases m with
+      | zero => simp
+      | succ m => rw [show a + 1 + (m + 1) = (a + 1 + m) + 1 by omega]; simp
+    | cons p r =>
+      rw [show a + 1 + m = (a + m) + 1 by omega]
+      simp only [need_cons_succ, List.drop_succ_cons]
+      exact ih p.2 r
+
+section branches
+variable (up : Gen σ α) (cnt : σ → Nat) (fu : Nat)
+
+/-- `Slice(-m)` / `Slice(None, -m)`: lag of `m` values -/
+theorem neg_produces_none (b : Int) (hb : b < 0) {s : σ} {vals : List (α × Nat)} {cf : Nat}
+    (h : Produces up cnt fu s vals cf) (hfu : vals.length + 3 < fu) :
+    Produces (negG none (some b) up) (fun t => cnt t.1) fu (s, NSt.init)
+      (negSpec none (some b) ⟨cnt s, vals, cf⟩).vals (negSpec none (some b) ⟨cnt s, vals, cf⟩).cf := by
+  apply neg_produces_of_term
+  have hm : 1 ≤ negLen (some b) := by simp [negLen]; omega
+  obtain ⟨s', j, k1, k2, k3, k4⟩ := neg_fill_loop none (some b) up cnt fu h 0 [] rfl (Nat.zero_le _)
+  simp only [Nat.sub_zero] at k1 k2 k3 k4
+  refine ⟨(s', NSt.lag (((vals.take (negLen (some b))).map Prod.fst).reverse ++ [])), 1 + (j + 1), ?_, by omega, ?_⟩
+  · exact Steps.trans (Steps.cons (by simp [negStep]) k1) (Steps.one (by simp [negStep, afterFill]))
+  · refine ⟨vals.drop (negLen (some b)), k3, ?_, by simp; omega, ?_⟩
+    · by_cases hl : negLen (some b) ≤ vals.length
+      · left
+        intro hnil
+        have := congrArg List.length hnil
+        simp only [List.append_nil, List.length_reverse, List.length_map, List.length_take, List.length_nil] at this
+        omega
+      · right
+        exact List.drop_eq_nil_of_le (by omega)
+    · simp only [negSpec]
+      exact (lagOut_take_drop _ _).symm
+
+/-- `Slice(a, -m)` with `a ≥ 0`: skip `a` values, then lag of `m` -/
+theorem neg_produces_pos (a : Nat) (b : Int) (hb : b < 0) {s : σ} {vals : List (α × Nat)} {cf : Nat}
+    (h : Produces up cnt fu s vals cf) (hfu : vals.length + 4 < fu) :
+    Produces (negG (some (a : Int)) (some b) up) (fun t => cnt t.1) fu (s, NSt.init)
+      (negSpec (some (a : Int)) (some b) ⟨cnt s, vals, cf⟩).vals
+      (negSpec (some (a : Int)) (some b) ⟨cnt s, vals, cf⟩).cf := by
+  apply neg_produces_of_term
+  have hm : 1 ≤ negLen (some b) := by simp [negLen]; omega
+  have ha : ((a : Int) ≥ 0) := by omega
+  obtain ⟨s1, j1, p1, p2, p3, p4⟩ := neg_skip_loop (some (a : Int)) (some b) up cnt fu a rfl h 0 (Nat.zero_le _)
+  simp only [Nat.sub_zero] at p1 p2 p3 p4
+  obtain ⟨s2, j2, q1, q2, q3, q4⟩ := neg_fill_loop (some (a : Int)) (some b) up cnt fu p3 0 [] rfl (Nat.zero_le _)
+  simp only [Nat.sub_zero] at q1 q2 q3 q4
+  have hinit : negStep (some (a : Int)) (some b) up fu (s, NSt.init) = .cont (s, NSt.skip 0) := by
+    simp [negStep, ha]
+  have hsteps := Steps.trans (Steps.cons hinit p1) q1
+  have hj : j1 + j2 ≤ vals.length + 2 := by
+    simp only [List.length_drop] at q2
+    omega
+  have hspec : negSpec (some (a : Int)) (some b) ⟨cnt s, vals, cf⟩
+      = ⟨cnt s, if (vals.drop a).length < negLen (some b) then [] else lagSpec (negLen (some b)) (vals.drop a), cf⟩ := by
+    simp [negSpec, ha]
+  rw [hspec]
+  by_cases hshort : (vals.drop a).length < negLen (some b)
+  · refine ⟨(s2, NSt.filled ((((vals.drop a).take (negLen (some b))).map Prod.fst).reverse ++ [])), _, hsteps,
+      by omega, ⟨_, rfl⟩, ?_, ?_, ?_⟩
+    · simp only [List.append_nil, List.length_reverse, List.length_map, List.length_take]
+      omega
+    · rw [if_pos hshort]
+    · show cf = cnt s2
+      rw [q4, p4, need_drop]
+      exact (need_ge_length _ _ _ _ (by simp only [List.length_drop] at hshort; omega)).symm
+  · refine ⟨(s2, NSt.lag ((((vals.drop a).take (negLen (some b))).map Prod.fst).reverse ++ [])),
+      1 + (j2 + (j1 + 1)), ?_, by omega, ?_⟩
+    · refine Steps.trans hsteps (Steps.one ?_)
+      have : ¬ ((((vals.drop a).take (negLen (some b))).map Prod.fst).reverse ++ []).length < negLen (some b) := by
+        simp only [List.append_nil, List.length_reverse, List.length_map, List.length_take]
+        omega
+      simp only [negStep, afterFill, this, if_false]
+    · refine ⟨(vals.drop a).drop (negLen (some b)), q3, ?_, by simp; omega, ?_⟩
+      · left
+        intro hnil
+        have := congrArg List.length hnil
+        simp only [List.append_nil, List.length_reverse, List.length_map, List.length_take, List.length_nil] at this
+        omega
+      · rw [if_neg hshort]
+        exact (lagOut_take_drop _ _).symm
+
+/-- `Slice(-m, None)`: the last `m` values, known only when the flow has ended -/
+theorem neg_produces_neg_none (a : Int) (ha : a < 0) {s : σ} {vals : List (α × Nat)} {cf : Nat}
+    (h : Produces up cnt fu s vals cf) (hfu : vals.length + 4 < fu) :
+    Produces (negG (some a) none up) (fun t => cnt t.1) fu (s, NSt.init)
+      (negSpec (some a) none ⟨cnt s, vals, cf⟩).vals (negSpec (some a) none ⟨cnt s, vals, cf⟩).cf := by
+  apply neg_produces_of_term
+  have hna : ¬ (a ≥ 0) := by omega
+  obtain ⟨s', k1, k2, k3⟩ := neg_drain_loop (some a) none up cnt fu h []
+  refine ⟨(s', NSt.emitAll ((vals.map Prod.fst).foldl (Lena.C17.dqAppend (negLen (some a))) [])),
+    1 + (vals.length + 1 + 1), ?_, by omega, ?_, ?_⟩
+  · exact Steps.trans (Steps.cons (by simp [negStep, hna]) k1) (Steps.one (by simp [negStep]))
+  · simp [negSpec, negValsAt, Lena.C17.runNegative, hna, Lena.C17.drainLeft, Lena.C17.dqOfFlow, negLen, k3]
+  · simp [negSpec, hna, k3]
+
+/-- `stop <= start < 0`: nothing can be selected, nothing is pulled -/
+theorem neg_produces_neg_le (a b : Int) (ha : a < 0) (hba : b ≤ a) {s : σ} {vals : List (α × Nat)} {cf : Nat}
+    (hfu : 0 < fu) :
+    Produces (negG (some a) (some b) up) (fun t => cnt t.1) fu (s, NSt.init)
+      (negSpec (some a) (some b) ⟨cnt s, vals, cf⟩).vals (negSpec (some a) (some b) ⟨cnt s, vals, cf⟩).cf := by
+  apply neg_produces_of_term
+  have hna : ¬ (a ≥ 0) := by omega
+  refine ⟨(s, NSt.init), 0, Steps.refl _ _, hfu, ⟨a, b, rfl, rfl, ha, hba⟩, ?_, ?_⟩
+  · simp [negSpec, hna, hba]
+  · simp [negSpec, hna, hba]
+
+/-- `start < stop < 0`: the values are known only when the flow has ended -/
+theorem neg_produces_neg_neg (a b : Int) (ha : a < 0) (hab : a < b) (hb : b < 0)
+    {s : σ} {vals : List (α × Nat)} {cf : Nat}
+    (h : Produces up cnt fu s vals cf) (hfu : vals.length + 4 < fu) :
+    Produces (negG (some a) (some b) up) (fun t => cnt t.1) fu (s, NSt.init)
+      (negSpec (some a) (some b) ⟨cnt s, vals, cf⟩).vals (negSpec (some a) (some b) ⟨cnt s, vals, cf⟩).cf := by
+  apply neg_produces_of_term
+  have hna : ¬ (a ≥ 0) := by omega
+  have hba : ¬ (b ≤ a) := by omega
+  obtain ⟨s', k1, k2, k3⟩ := neg_drain_loop (some a) (some b) up cnt fu h []
+  let dfin := (vals.map Prod.fst).foldl (Lena.C17.dqAppend (negLen (some a))) []
+  have hn : ((dfin.length : Int) + b).toNat ≤ dfin.length := by omega
+  refine ⟨(s', NSt.emitN ((dfin.length : Int) + b).toNat dfin), 1 + (vals.length + 1 + 1), ?_, by omega, hn, ?_, ?_⟩
+  · exact Steps.trans (Steps.cons (by simp [negStep, hna, hba, hb]) k1) (Steps.one (by simp [negStep, dfin]))
+  · have hd : Lena.C17.dqOfFlow (-a).toNat (vals.map Prod.fst) = dfin := rfl
+    simp only [negSpec, hna, hba, hb, if_false, if_true, negValsAt, Lena.C17.runNegative, hd]
+    rw [Lena.C17.popLeftN_spec _ _ hn]
+    simp [k3]
+  · simp [negSpec, hna, hba, hb, k3]
+
+/-- `start < 0 ≤ stop`: more than `stop - start` values mean that nothing is selected (known when
+value number `stop - start + 1` arrives); otherwise the values are known when the flow has ended -/
+theorem neg_produces_neg_pos (a b : Int) (ha : a < 0) (hb : 0 ≤ b)
+    {s : σ} {vals : List (α × Nat)} {cf : Nat}
+    (h : Produces up cnt fu s vals cf) (hfu : vals.length + 4 < fu) :
+    Produces (negG (some a) (some b) up) (fun t => cnt t.1) fu (s, NSt.init)
+      (negSpec (some a) (some b) ⟨cnt s, vals, cf⟩).vals (negSpec (some a) (some b) ⟨cnt s, vals, cf⟩).cf := by
+  apply neg_produces_of_term
+  have hna : ¬ (a ≥ 0) := by omega
+  have hba : ¬ (b ≤ a) := by omega
+  have hb0 : ¬ (b < 0) := by omega
+  have hinit : negStep (some a) (some b) up fu (s, NSt.init) = .cont (s, NSt.posLoop 0 []) := by
+    simp [negStep, hna, hba, hb0]
+  have key := neg_pos_loop (some a) (some b) up cnt fu (b - a).toNat rfl h 0 [] (Nat.zero_le _)
+  by_cases hlong : (b - a).toNat < 0 + vals.length
+  · rw [if_pos hlong] at key
+    obtain ⟨s1, j, d1, v, s', k1, k2, k3, k4⟩ := key
+    refine ⟨(s1, NSt.posLoop (b - a).toNat d1), j + 1, Steps.cons hinit k1, by omega, v, s', k3, ?_, ?_, ?_⟩
+    · simp
+    · have : vals.length > (b - a).toNat := by omega
+      simp [negSpec, hna, hba, hb0, this]
+    · have : vals.length > (b - a).toNat := by omega
+      simp [negSpec, hna, hba, hb0, this, k4]
+  · rw [if_neg hlong] at key
+    obtain ⟨s', k1, k2, k3⟩ := key
+    have hshort : ¬ (vals.length > (b - a).toNat) := by omega
+    refine ⟨_, vals.length + 1 + 1, Steps.cons hinit k1, by omega, ?_, ?_⟩
+    · simp only [negSpec, hna, hba, hb0, hshort, if_false, negValsAt, Lena.C17.runNegative]
+      rw [Lena.C17.posStopLoop_spec _ _ _ _ _ (Nat.zero_le _)]
+      have : ¬ ((b - a).toNat < 0 + (vals.map Prod.fst).length) := by simpa using hlong
+      simp only [this, if_false, Lena.C17.popLeftUpTo_spec]
+      simp [negLen, k3]
+    · simp [negSpec, hna, hba, hb0, hshort, k3]
+
+/-- **`_run_negative_islice` realises `negSpec`**, every branch -/
+theorem neg_produces (start stop : Option Int) (hargs : NegArgs start stop)
+    {s : σ} {vals : List (α × Nat)} {cf : Nat}
+    (h : Produces up cnt fu s vals cf) (hfu : vals.length + 4 < fu) :
+    Produces (negG start stop up) (fun t => cnt t.1) fu (s, NSt.init)
+      (negSpec start stop ⟨cnt s, vals, cf⟩).vals (negSpec start stop ⟨cnt s, vals, cf⟩).cf := by
+  cases start with
+  | none =>
+    rcases hargs with ⟨i, hi, _⟩ | ⟨b, rfl, hb⟩
+    · cases hi
+    · exact neg_produces_none up cnt fu b hb h (by omega)
+  | some a =>
+    by_cases ha : a < 0
+    · cases stop with
+      | none => exact neg_produces_neg_none up cnt fu a ha h hfu
+      | some b =>
+        by_cases hba : b ≤ a
+        · exact neg_produces_neg_le up cnt fu a b ha hba (by omega)
+        · by_cases hb : b < 0
+          · exact neg_produces_neg_neg up cnt fu a b ha (by omega) hb h hfu
+          · exact neg_produces_neg_pos up cnt fu a b ha (by omega) h hfu
+    · rcases hargs with ⟨i, hi, hi'⟩ | ⟨b, rfl, hb⟩
+      · cases hi; omega
+      · obtain ⟨k, rfl⟩ : ∃ k : Nat, a = (k : Int) := ⟨a.toNat, by omega⟩
+        exact neg_produces_pos up cnt fu k b hb h hfu
+
+end branches
+
 end Lena.C02
